@@ -20,45 +20,49 @@ theorem sortLets_perm : ∀ (l : List (String × SExpr)), (sortLets l).Perm l
     simp only [sortLets]
     exact (insertLet_perm x (sortLets r)).trans ((sortLets_perm r).cons x)
 
-/-- constant private scalars: each is a 0-d array holding its constant; nothing else changes -/
-theorem bindLets_int (Γ : List (String × Int)) : ∀ (lets : List (String × SExpr)) (σ : Store),
-    (lets.map (·.1)).Nodup → (∀ l ∈ lets, ∃ n, l.2 = .int n) →
-    (∀ t n, (t, SExpr.int n) ∈ lets → (bindLets Γ lets σ).get? t = some ⟨[], fun _ => .i n⟩) ∧
+/-- private scalars whose expressions read none of them: each is a 0-d array holding the value of its
+    expression in the store before; nothing else changes -/
+theorem bindLets_vals (Γ : List (String × Int)) : ∀ (lets : List (String × SExpr)) (σ : Store),
+    (lets.map (·.1)).Nodup → (∀ l ∈ lets, ∀ x ∈ readNames l.2, x ∉ lets.map (·.1)) →
+    (∀ l ∈ lets, (bindLets Γ lets σ).get? l.1 = some ⟨[], fun _ => eval { pt := [], ix := Γ, arr := σ } l.2⟩) ∧
     (∀ x, x ∉ lets.map (·.1) → (bindLets Γ lets σ).get? x = σ.get? x)
   | [], σ, _, _ => ⟨by simp, fun _ _ => rfl⟩
-  | (y, e) :: rest, σ, hnd, hint => by
+  | (y, e) :: rest, σ, hnd, hrd => by
     have hnd' : y ∉ rest.map (·.1) ∧ (rest.map (·.1)).Nodup := List.nodup_cons.1 hnd
-    obtain ⟨m, hm⟩ := hint (y, e) (by simp)
-    simp only at hm
-    subst hm
-    obtain ⟨ih1, ih2⟩ := bindLets_int Γ rest ((y, ⟨[], fun _ => eval { pt := [], ix := Γ, arr := σ } (.int m)⟩) :: σ)
-      hnd'.2 (fun l hl => hint l (List.mem_cons_of_mem _ hl))
+    obtain ⟨ih1, ih2⟩ := bindLets_vals Γ rest ((y, ⟨[], fun _ => eval { pt := [], ix := Γ, arr := σ } e⟩) :: σ)
+      hnd'.2 (fun l hl x hx hm => hrd l (List.mem_cons_of_mem _ hl) x hx (List.mem_cons_of_mem _ hm))
     simp only [bindLets]
     constructor
-    · intro t n hmem
-      rcases List.mem_cons.1 hmem with heq | hmem
-      · simp only [Prod.mk.injEq, SExpr.int.injEq] at heq
-        obtain ⟨rfl, rfl⟩ := heq
-        rw [ih2 t hnd'.1, Store.get?_cons, if_pos rfl]
-        simp [eval]
-      · exact ih1 t n hmem
+    · intro l hl
+      rcases List.mem_cons.1 hl with rfl | hl
+      · rw [ih2 _ hnd'.1, Store.get?_cons, if_pos rfl]
+      · rw [ih1 l hl]
+        congr 2
+        funext _
+        apply eval_congr l.2
+          { pt := [], ix := Γ, arr := (y, ⟨[], fun _ => eval { pt := [], ix := Γ, arr := σ } e⟩) :: σ }
+          { pt := [], ix := Γ, arr := σ } rfl rfl
+        intro x hx
+        have hxy : x ≠ y := fun e0 => hrd l (List.mem_cons_of_mem _ hl) x hx (by rw [e0]; simp)
+        show Store.get? ((y, _) :: σ) x = Store.get? σ x
+        rw [Store.get?_cons, if_neg (fun e0 => hxy e0.symm)]
     · intro x hx
       simp only [List.map_cons, List.mem_cons, not_or] at hx
       rw [ih2 x hx.2, Store.get?_cons, if_neg (fun e => hx.1 e.symm)]
 
 /-- the lets of a stored reduction -/
-def letsOf (ls : List RL) : List (String × SExpr) :=
-  ls.flatMap fun r => [(r.tl, .int r.l), (r.tu, .int r.h)]
+def letsOf (iv : List SExpr) (ls : List RL) : List (String × SExpr) :=
+  ls.flatMap fun r => [(r.tl, substIdx iv r.lb), (r.tu, substIdx iv r.ub)]
 
 theorem lets_emitStored (ls : List RL) (iv : List SExpr) :
-    (ls.flatMap RL.hs).map (fun h => (h.temp, substIdx iv h.e)) = letsOf ls := by
+    (ls.flatMap RL.hs).map (fun h => (h.temp, substIdx iv h.e)) = letsOf iv ls := by
   induction ls with
   | nil => rfl
   | cons r rest ih =>
     simp only [List.flatMap_cons, List.map_append, ih, letsOf]
-    simp [RL.hs, substIdx]
+    simp [RL.hs]
 
-theorem letsOf_names (ls : List RL) : (letsOf ls).map (·.1) = ls.flatMap RL.temps := by
+theorem letsOf_names (iv : List SExpr) (ls : List RL) : (letsOf iv ls).map (·.1) = ls.flatMap RL.temps := by
   induction ls with
   | nil => rfl
   | cons r rest ih =>
@@ -66,27 +70,33 @@ theorem letsOf_names (ls : List RL) : (letsOf ls).map (·.1) = ls.flatMap RL.tem
     rw [ih]
     simp [RL.temps]
 
-theorem letsOf_int (ls : List RL) : ∀ l ∈ letsOf ls, ∃ n, l.2 = .int n := by
-  intro l hl
-  obtain ⟨r, _, hr⟩ := List.mem_flatMap.1 hl
-  simp only [List.mem_cons, List.mem_nil_iff, or_false] at hr
-  rcases hr with rfl | rfl
-  · exact ⟨_, rfl⟩
-  · exact ⟨_, rfl⟩
+theorem mem_letsOf {iv : List SExpr} {ls : List RL} {l : String × SExpr} (hl : l ∈ letsOf iv ls) :
+    ∃ r ∈ ls, l = (r.tl, substIdx iv r.lb) ∨ l = (r.tu, substIdx iv r.ub) := by
+  obtain ⟨r, hr, hin⟩ := List.mem_flatMap.1 hl
+  simp only [List.mem_cons, List.mem_nil_iff, or_false] at hin
+  exact ⟨r, hr, hin⟩
 
-/-- under the private scalars of a stored reduction the bound temporaries hold the bounds, and every
-    other name is what it was -/
-theorem tempsHold_lets (Γ : List (String × Int)) (σ : Store) (ls : List RL) (hnd : (ls.flatMap RL.temps).Nodup) :
-    TempsHold (bindLets Γ (sortLets (letsOf ls)) σ) ls ∧
-    ∀ x, x ∉ ls.flatMap RL.temps → (bindLets Γ (sortLets (letsOf ls)) σ).get? x = σ.get? x := by
-  have hp := sortLets_perm (letsOf ls)
-  have hnames : ((sortLets (letsOf ls)).map (·.1)).Perm (ls.flatMap RL.temps) := by
-    rw [← letsOf_names]; exact hp.map _
-  obtain ⟨h1, h2⟩ := bindLets_int Γ (sortLets (letsOf ls)) σ (hnames.nodup_iff.2 hnd)
-    (fun l hl => letsOf_int ls l (hp.mem_iff.1 hl))
+/-- under the private scalars of a stored reduction the bound temporaries hold the values of the
+    generated bounds at the point, and every other name is what it was -/
+theorem tempsHold_lets (Γ : List (String × Int)) (σ : Store) (iv : List SExpr) (ls : List RL)
+    (hnd : (ls.flatMap RL.temps).Nodup)
+    (hrd : ∀ r ∈ ls, (∀ x ∈ readNames (substIdx iv r.lb), x ∉ ls.flatMap RL.temps) ∧
+      (∀ x ∈ readNames (substIdx iv r.ub), x ∉ ls.flatMap RL.temps)) :
+    TempsHold (bindLets Γ (sortLets (letsOf iv ls)) σ)
+      (fun r => eval { pt := [], ix := Γ, arr := σ } (substIdx iv r.lb))
+      (fun r => eval { pt := [], ix := Γ, arr := σ } (substIdx iv r.ub)) ls ∧
+    ∀ x, x ∉ ls.flatMap RL.temps → (bindLets Γ (sortLets (letsOf iv ls)) σ).get? x = σ.get? x := by
+  have hp := sortLets_perm (letsOf iv ls)
+  have hnames : ((sortLets (letsOf iv ls)).map (·.1)).Perm (ls.flatMap RL.temps) := by
+    rw [← letsOf_names iv]; exact hp.map _
+  obtain ⟨h1, h2⟩ := bindLets_vals Γ (sortLets (letsOf iv ls)) σ (hnames.nodup_iff.2 hnd) (by
+    intro l hl x hx hm
+    obtain ⟨r, hr, hc | hc⟩ := mem_letsOf (hp.mem_iff.1 hl)
+    · rw [hc] at hx; exact (hrd r hr).1 x hx (hnames.mem_iff.1 hm)
+    · rw [hc] at hx; exact (hrd r hr).2 x hx (hnames.mem_iff.1 hm))
   refine ⟨fun r hr => ⟨?_, ?_⟩, fun x hx => h2 x (fun hm => hx (hnames.mem_iff.1 hm))⟩
-  · exact ⟨_, h1 r.tl r.l (hp.mem_iff.2 (List.mem_flatMap.2 ⟨r, hr, by simp⟩)), rfl, rfl⟩
-  · exact ⟨_, h1 r.tu r.h (hp.mem_iff.2 (List.mem_flatMap.2 ⟨r, hr, by simp⟩)), rfl, rfl⟩
+  · exact ⟨_, h1 (r.tl, substIdx iv r.lb) (hp.mem_iff.2 (List.mem_flatMap.2 ⟨r, hr, by simp⟩)), rfl, rfl⟩
+  · exact ⟨_, h1 (r.tu, substIdx iv r.ub) (hp.mem_iff.2 (List.mem_flatMap.2 ⟨r, hr, by simp⟩)), rfl, rfl⟩
 
 end LG
 end Pt
